@@ -81,10 +81,11 @@ theorem no_panic_seq (seq : Bytes) (ctx : Nat) (h : seq.length < I32LIM) :
 `total_len()` (the public wrapper of `container_len`), and the control flow of `Display` / `Debug`
 (`TLVElement::fmt`, **recursive**): a result or `fmt::Error`, never a panic — in particular its
 `unreachable!()` is unreachable — and the recursion is at most `len + 1` deep (`fmtOf` runs on that fuel;
-`.panic .fuel` would be a deeper recursion).  Stack consumption per level is outside the model. -/
+`.panic .fuel` would be a deeper recursion); `seqFmtOf` = `Display` / `Debug` of a `TLVSequence` / `TLVSequenceIter`.
+Stack consumption per level is outside the model. -/
 theorem no_panic_extra (bs : Bytes) (h : bs.length < I32LIM) :
-    NP (tlvOf bs) ∧ NP (totalLen bs) ∧ NP (fmtOf (bs.length + 1) bs) :=
-  ⟨tlvOf_np bs h, totalLen_np bs h, fmtOf_np _ bs (Nat.lt_succ_self _) h⟩
+    NP (tlvOf bs) ∧ NP (totalLen bs) ∧ NP (fmtOf (bs.length + 1) bs) ∧ NP (seqFmtOf bs) :=
+  ⟨tlvOf_np bs h, totalLen_np bs h, fmtOf_np _ bs (Nat.lt_succ_self _) h, seqFmtOf_np bs h⟩
 
 example : fmtOf 6 [0x15, 0x24, 0x01, 0x05, 0x18] = .ok () ∧ fmtOf 2 [0x18] = .err .mismatch ∧
     fmtOf 4 [0x15, 0x24, 0x01] = .err .mismatch := by decide
